@@ -1,7 +1,8 @@
 """loop engine: the REAL per-device loop (do_remapping_loop_one_device, through
 the remapping_loop::verif hook) is driven by a scripted driver that simulates
 the environment of coq/theories/LoopEnv.v; the recorded transcripts are
-(1) judged by the extracted checkers of coq/theories/LoopMonitors.v and
+(1) judged by the extracted checkers of coq/theories/LoopMonitors.v and the
+device-level monitor of coq/theories/LoopDevice.v (clauses C01/C02/C19.device) and
 (2) compared with the extracted Loop.run on the same answers
 (see harness/src/engines/loop_script.rs and ocaml/loop_check.ml)."""
 import os, json, re, time, glob, shutil
@@ -38,7 +39,10 @@ def parse_out(text, engine):
                              "input": {"layout": c.get("layout"), "tag": c.get("tag"), "case": m.group(1),
                                        "script": " ".join(cut), "entry": idx},
                              "observed": m.group(4),
-                             "expected": "no clause of LoopMonitors.check_transcript / check_outcome fires (Properties/%s.v)" % clause.split(".")[0]})
+                             "expected": ("no clause of LoopDevice.device_check fires: the acknowledged sends leave on the virtual keyboard exactly the held set of the "
+                                          "specification mapper for the inputs read, nothing when no key is physically held, and contain no redundant event (Properties/%s.v)" % clause.split(".")[0])
+                                         if clause.endswith(".device") else
+                                         "no clause of LoopMonitors.check_transcript / check_outcome fires (Properties/%s.v)" % clause.split(".")[0]})
         elif line.startswith("SUMMARY "):
             for k, v in re.findall(r"(\w+)=(\d+)", line):
                 summary[k] = summary.get(k, 0) + int(v)
@@ -54,7 +58,9 @@ def run(ctx):
                             os.path.join(here, "harness", "src"), os.path.join(here, "ocaml", "loop_check.ml"),
                             os.path.join(here, "coq", "theories", "Base.v"), os.path.join(here, "coq", "theories", "Mapper.v"),
                             os.path.join(here, "coq", "theories", "Monitors.v"), os.path.join(here, "coq", "theories", "Loop.v"),
-                            os.path.join(here, "coq", "theories", "LoopMonitors.v"), os.path.join(here, "coq", "gen"),
+                            os.path.join(here, "coq", "theories", "LoopMonitors.v"), os.path.join(here, "coq", "theories", "LoopSpec.v"),
+                            os.path.join(here, "coq", "theories", "Trace.v"), os.path.join(here, "coq", "theories", "LoopDevice.v"),
+                            os.path.join(here, "coq", "gen"),
                             os.path.join(here, "coq", "extract", "Extract_loop.v"),
                             os.path.join(here, "tools", "engines", "loop.py")]) + "-%s-%d-%s" % (tier, seed, budget)
     cdir = os.path.join(build, "cache", key)
